@@ -48,6 +48,12 @@ theorem lower_binop_int (dbg : Bool) (op : BinOp) (k : IntKind) (sz : IntSize) (
     lower_binop dbg op (.Primitive (.Int k sz)) = .ok i := by
   cases op <;> cases k <;> cases sz <;> simp [expectedInstr, IntKind.signed] at h <;> subst h <;> rfl
 
+/-- non-vacuity: the table is defined for the eleven operators, e.g. `<` on `i16` is `SLt`, on
+    `u16` it is `ULt`, `/` on `i64` carries `signed = true`. -/
+example : expectedInstr .Lt .Signed .I16 = some (.IntCmp .Bool .SLt .lhs .rhs)
+    ∧ expectedInstr .Lt .Unsigned .I16 = some (.IntCmp .Bool .ULt .lhs .rhs)
+    ∧ expectedInstr .Div .Signed .I64 = some (.Div .I64 .lhs .rhs true) := by decide
+
 section
 variable [F : FloatOps]
 
